@@ -231,7 +231,11 @@ def r2_total(chk, F):
     rule = "C02.R2"
     fn, arms, bad = analyse_total_nanoseconds(F)
     for st, label, ok, why in arms:
-        chk.ob(rule, "Duration::total_nanoseconds", "arm[%s]" % label, ok, "linear normal form == c*NPC+n", detail=why, sample=True)
+        # a failing arm is keyed by the form it returns, so that the recorded (test-locked) wrong form does not hide another one
+        form = ""
+        if not ok and isinstance(st.ret, Int):
+            form = ":returns(%r)" % (st.ret.lin,)
+        chk.ob(rule, "Duration::total_nanoseconds", "arm[%s]%s" % (label, form), ok, "linear normal form == c*NPC+n", detail=why, sample=True)
     chk.floor(rule, "arms", len(arms), 2)
 
 
